@@ -244,12 +244,32 @@ Fixpoint lock_inputs (outs : list orec) (ins : list (kid * option N * N)) (id : 
     end
   end.
 
+(** the change outputs are written — except under a key the wallet already records (the
+    receiving output of an invoice it pays to itself, merged into the context): that record
+    and its log entry are left as they are (the C04 [fix:]) *)
 Fixpoint add_change (outs : list orec) (chg : list (kid * option N * N)) (parent id tip : N)
   : list orec :=
   match chg with
   | [] => outs
   | (k, _, v) :: r =>
-    add_change (save_out outs (mkO parent k None v Unconfirmed tip 0 false (Some id))) r parent id tip
+    match get_out outs k None with
+    | Some _ => add_change outs r parent id tip
+    | None =>
+      add_change (save_out outs (mkO parent k None v Unconfirmed tip 0 false (Some id))) r parent id tip
+    end
+  end.
+(** the entries add_change writes (they are what the log entry counts as credited) *)
+Fixpoint written_change (outs : list orec) (chg : list (kid * option N * N)) (parent id tip : N)
+  : list (kid * option N * N) :=
+  match chg with
+  | [] => []
+  | (k, m, v) :: r =>
+    match get_out outs k None with
+    | Some _ => written_change outs r parent id tip
+    | None =>
+      (k, m, v) :: written_change (save_out outs (mkO parent k None v Unconfirmed tip 0 false (Some id)))
+                                  r parent id tip
+    end
   end.
 
 Definition sum_vals (l : list (kid * option N * N)) : N := sumN (map (fun x => snd x) l).
@@ -272,8 +292,9 @@ Definition lock_tx (w : wallet) (slate ttl tip : N) (has_tx : bool) : wallet * r
     | Panic p => (w, Panic p)
     | Ok (outs1, deb) =>
       let outs2 := add_change outs1 (c_outs c) (c_parent c) id tip in
-      let t := mkT (c_parent c) id (Some slate) TSent false (sum_vals (c_outs c)) deb (c_fee c)
-                   (if ttl =? 0 then None else Some ttl) (lenN (c_ins c)) (lenN (c_outs c))
+      let written := written_change outs1 (c_outs c) (c_parent c) id tip in
+      let t := mkT (c_parent c) id (Some slate) TSent false (sum_vals written) deb (c_fee c)
+                   (if ttl =? 0 then None else Some ttl) (lenN (c_ins c)) (lenN written)
                    true true in
       (with_files (with_log (with_outs w1 outs2) (save_tx (w_log w1) t)) (slate :: w_files w1), Ok tt)
     end
